@@ -37,8 +37,8 @@ func scaleCases(tier string) []scalekit.Case {
 // revision for variants 0 and 1) that has data of its own, uses a grouping of base and augments base
 // is loaded, everything is processed again, and every node is asked again.
 func checkLateModule(cs scalekit.Case) scalekit.Verdict {
-	ms := yang.NewModules()
-	parse := func(name, text string) error { return ms.Parse(text, name) }
+	ms := scalekit.NewModules()
+	parse := func(name, text string) error { return ms.Parse(scalekit.Text(text), name) }
 	rev := ""
 	if cs.V%2 == 1 {
 		rev = " revision 2020-02-02;"
